@@ -1408,4 +1408,74 @@ theorem wstep_keeps_inSync (ca uri : String) (w : World) (m : List File)
         rw [repo_run _ hc]
         simpa [repoProj, RepoStatus.setLastUpdated, RepoStatus.setFailure] using hin
 
+/-! ## the view is what the most recent event says (arbitrary histories) -/
+
+theorem lastTouch_cons {β} (cls : Ev → Option β) (e : Ev) (t : List Ev) :
+    lastTouch cls (e :: t) = (lastTouch cls t).or (cls e) := by
+  simp [lastTouch, List.findSome?_append]
+
+/-- If every event either leaves an observation of an entry alone or determines it outright, the
+observation after a history is what the most recent determining event says. -/
+theorem foldl_lastTouch {σ γ} (proj : Ev → σ → σ) (obs : σ → γ) (cls : Ev → Option γ)
+    (h : ∀ e o, obs (proj e o) = (cls e).getD (obs o))
+    (evs : List Ev) (o0 : σ) :
+    obs (evs.foldl (fun o e => proj e o) o0) = (lastTouch cls evs).getD (obs o0) := by
+  induction evs generalizing o0 with
+  | nil => rfl
+  | cons e t ih =>
+    simp only [List.foldl_cons]
+    rw [ih (proj e o0), lastTouch_cons]
+    cases lastTouch cls t with
+    | some g => rfl
+    | none => simpa using h e o0
+
+theorem parentProj_exchangeSays (e : Ev) (ca p : String) (o : Option ParentStatus) :
+    (parentProj e ca p o).bind (·.lastExchange) =
+      (e.parentExchangeSays ca p).getD (o.bind (·.lastExchange)) := by
+  cases e with
+  | parentList ca' p' uri ex reply now =>
+    by_cases h : ca' = ca ∧ p' = p
+    · cases reply with
+      | ok ent => simp [parentProj, Ev.parentExchangeSays, Ev.parentAttempt?, h, ParentStatus.setEntitlements, ParentStatus.setLastUpdated]
+      | error err =>
+        cases ex <;> simp [parentProj, Ev.parentExchangeSays, Ev.parentAttempt?, h, ParentStatus.setFailure, Ev.removesParent, Ev.removesCa]
+    · cases reply with
+      | ok ent => simp [parentProj, Ev.parentExchangeSays, Ev.parentAttempt?, h]
+      | error err =>
+        have h' : ¬ (ca' = ca ∧ p' = p ∧ ex = true) := fun ⟨a, b, _⟩ => h ⟨a, b⟩
+        cases ex <;> simp [parentProj, Ev.parentExchangeSays, Ev.parentAttempt?, h, Ev.removesParent, Ev.removesCa]
+  | parentRevokes ca' p' uri sent reply now =>
+    by_cases h : ca' = ca ∧ p' = p
+    · cases reply with
+      | ok u => cases u; simp [parentProj, Ev.parentExchangeSays, Ev.parentAttempt?, h, ParentStatus.setLastUpdated, resultOf]
+      | error err => simp [parentProj, Ev.parentExchangeSays, Ev.parentAttempt?, h, ParentStatus.setFailure, resultOf]
+    · cases reply with
+      | ok u => cases u; simp [parentProj, Ev.parentExchangeSays, Ev.parentAttempt?, h]
+      | error err => simp [parentProj, Ev.parentExchangeSays, Ev.parentAttempt?, h]
+  | parentCerts ca' p' uri reply now =>
+    by_cases h : ca' = ca ∧ p' = p
+    · cases reply with
+      | ok u => cases u; simp [parentProj, Ev.parentExchangeSays, Ev.parentAttempt?, h, ParentStatus.setLastUpdated, resultOf]
+      | error err => simp [parentProj, Ev.parentExchangeSays, Ev.parentAttempt?, h, ParentStatus.setFailure, resultOf]
+    · cases reply with
+      | ok u => cases u; simp [parentProj, Ev.parentExchangeSays, Ev.parentAttempt?, h]
+      | error err => simp [parentProj, Ev.parentExchangeSays, Ev.parentAttempt?, h]
+  | parentRemove ca' p' =>
+    by_cases h : ca' = ca ∧ p' = p
+    · simp [parentProj, Ev.parentExchangeSays, Ev.parentAttempt?, Ev.removesParent, h]
+    · have : (decide (ca' = ca) && decide (p' = p)) = false := by
+        simp only [Bool.and_eq_false_iff, decide_eq_false_iff_not]
+        by_cases a : ca' = ca
+        · exact Or.inr (fun b => h ⟨a, b⟩)
+        · exact Or.inl a
+      simp [parentProj, Ev.parentExchangeSays, Ev.parentAttempt?, Ev.removesParent, h, this]
+  | caRemove ca' =>
+    by_cases h : ca' = ca <;> simp [parentProj, Ev.parentExchangeSays, Ev.parentAttempt?, Ev.removesParent, Ev.removesCa, h]
+  | repoList ca' uri reply now => cases reply <;> simp [parentProj, Ev.parentExchangeSays, Ev.parentAttempt?, Ev.removesParent, Ev.removesCa]
+  | repoDelta ca' uri d reply now => cases reply <;> simp [parentProj, Ev.parentExchangeSays, Ev.parentAttempt?, Ev.removesParent, Ev.removesCa]
+  | childRequest ca' c agent outcome now => cases outcome <;> simp [parentProj, Ev.parentExchangeSays, Ev.parentAttempt?, Ev.removesParent, Ev.removesCa]
+  | childSuspended ca' c now => simp [parentProj, Ev.parentExchangeSays, Ev.parentAttempt?, Ev.removesParent, Ev.removesCa]
+  | childRemove ca' c => simp [parentProj, Ev.parentExchangeSays, Ev.parentAttempt?, Ev.removesParent, Ev.removesCa]
+  | restart => simp [parentProj, Ev.parentExchangeSays, Ev.parentAttempt?, Ev.removesParent, Ev.removesCa]
+
 end KM.Status
